@@ -491,8 +491,13 @@ func cmdCheck(args []string) int {
 			},
 		}
 		b, _ := json.MarshalIndent(ev, "", " ")
-		os.MkdirAll(filepath.Join(*verif, "evidence"), 0755)
-		if err := os.WriteFile(filepath.Join(*verif, "evidence", id+".json"), b, 0644); err != nil {
+		evDir := filepath.Join(*verif, "evidence")
+		if *repo != "/repo" {
+			// a run against another tree (seeded change in a scratch worktree) must not replace the evidence of /repo
+			evDir = filepath.Join(os.TempDir(), "gosym-evidence-other-tree")
+		}
+		os.MkdirAll(evDir, 0755)
+		if err := os.WriteFile(filepath.Join(evDir, id+".json"), b, 0644); err != nil {
 			fmt.Fprintln(os.Stderr, "cannot write evidence:", err)
 			return 2
 		}
